@@ -34,6 +34,10 @@ def main():
             acc["cases_skipped_time"] += len(todo) - n
             break
         cs = case.Case(prop, seed_str, tier, acc)
+        if getattr(mon, "RANDOM_ZONE", True):
+            zr = env.rng_for(seed_str, "zone")
+            os.environ["TZ"] = zr.choice(["UTC", "UTC", "UTC", "Europe/Berlin", "America/St_Johns", "Asia/Kolkata", "Pacific/Chatham", "America/Caracas", "Australia/Lord_Howe", "America/New_York"])
+            time.tzset()
         drive.SPELL["rng"] = env.rng_for(seed_str, "spelling") if getattr(mon, "SPELLING", True) else None
         drive.VERBOSE["rng"] = env.rng_for(seed_str, "verbose") if getattr(mon, "VERBOSITY", True) else None
         try:
